@@ -5,6 +5,7 @@ import (
 
 	"helm.sh/helm/v4/pkg/action"
 	chart "helm.sh/helm/v4/pkg/chart/v2"
+	"helm.sh/helm/v4/pkg/kube"
 	release "helm.sh/helm/v4/pkg/release/v1"
 	"helm.sh/helm/v4/verifh/sim"
 )
@@ -125,6 +126,7 @@ func (w *World) ExecCfg(cfg *action.Configuration, name string, op Op, ch *chart
 		in.Atomic, in.Replace, in.DisableHooks, in.TakeOwnership, in.Force = op.Atomic, op.Replace, op.NoHooks, op.TakeOwnership, op.Force
 		in.WaitForJobs, in.SkipSchemaValidation, in.SubNotes, in.SkipCRDs, in.CreateNamespace = op.WaitForJobs, op.SkipSchema, op.SubNotes, op.SkipCRDs, op.CreateNS
 		in.DryRun, in.DryRunOption = dry, dryOpt
+		in.WaitStrategy = kube.StatusWatcherStrategy // the harness ops are "--wait" ops: readiness can fail
 		rel, err := in.Run(ch, copyVals(op.Vals))
 		return OpResult{Rel: rel, Err: err}
 	case "upgrade":
@@ -134,18 +136,21 @@ func (w *World) ExecCfg(cfg *action.Configuration, name string, op Op, ch *chart
 		up.ReuseValues, up.ResetValues, up.ResetThenReuseValues = op.ReuseValues, op.ResetValues, op.ResetThenReuse
 		up.TakeOwnership, up.Force, up.WaitForJobs, up.SkipSchemaValidation, up.SubNotes = op.TakeOwnership, op.Force, op.WaitForJobs, op.SkipSchema, op.SubNotes
 		up.DryRun, up.DryRunOption = dry, dryOpt
+		up.WaitStrategy = kube.StatusWatcherStrategy
 		rel, err := up.Run(name, ch, copyVals(op.Vals))
 		return OpResult{Rel: rel, Err: err}
 	case "rollback":
 		rb := action.NewRollback(cfg)
 		rb.Version, rb.DisableHooks, rb.CleanupOnFail, rb.MaxHistory, rb.Force, rb.WaitForJobs = op.ToRev, op.NoHooks, op.CleanupOnFail, op.MaxHistory, op.Force, op.WaitForJobs
 		rb.DryRun = op.DryRun != ""
+		rb.WaitStrategy = kube.StatusWatcherStrategy
 		err := rb.Run(name)
 		return OpResult{Err: err}
 	case "uninstall":
 		un := action.NewUninstall(cfg)
 		un.KeepHistory, un.DisableHooks = op.KeepHistory, op.NoHooks
 		un.DryRun = op.DryRun != ""
+		un.WaitStrategy = kube.StatusWatcherStrategy
 		resp, err := un.Run(name)
 		return OpResult{Resp: resp, Err: err}
 	}
